@@ -126,8 +126,11 @@ class Report:
             "violations": len(new),
         }
         ev["coverage"].update(self.extra)
-        os.makedirs(EVID, exist_ok=True)
-        with open(os.path.join(EVID, self.pid + ".json"), "w") as fh:
+        evdir = EVID
+        if os.environ.get("VERIF_REPO") and os.path.realpath(os.environ["VERIF_REPO"]) != "/repo":
+            evdir = os.path.join(OUT, "alt-evidence")     # never overwrite real evidence with a scratch tree's
+        os.makedirs(evdir, exist_ok=True)
+        with open(os.path.join(evdir, self.pid + ".json"), "w") as fh:
             json.dump(ev, fh, indent=1, default=str)
         for r in self.rules:
             print("%s %s: %d instance(s) (floor %d), %d/%d obligations discharged"
